@@ -36,7 +36,12 @@ fn recorder<'a, 'b>(words: &'b [Word<'a>], line_widths: &'b [usize]) -> Vec<&'b 
     let lws: Vec<f64> = line_widths.iter().map(|w| *w as f64).collect();
     let res = wrap_optimal_fit(words, &lws, &pen).unwrap();
     let key = format!(
-        "{}@{}",
+        "{}:{}:{}:{}:{}#{}@{}",
+        p[0],
+        p[1],
+        p[2],
+        p[3],
+        p[4],
         enc::list(words, |w| format!("{}:{}:{}", w.width, w.whitespace.len(), w.penalty.len())),
         enc::nums(line_widths)
     );
@@ -524,6 +529,20 @@ pub fn run(fields: &[&str]) -> String {
         "wrap" => {
             let o = OptSpec::dec(fields[1]);
             let t = ds(fields[2]);
+            if o.unicode {
+                if let Ok(ls) = catch_unwind(AssertUnwindSafe(|| {
+                    textwrap::wrap(&t, o.options()).iter().map(|l| l.to_string()).collect::<Vec<_>>()
+                })) {
+                    for (i, l) in ls.iter().enumerate() {
+                        let ind = if i == 0 { &o.ii } else { &o.si };
+                        let body = l.strip_prefix(ind.as_str()).unwrap_or(l);
+                        note_text(body);
+                        if let Some(b2) = body.strip_suffix('-') {
+                            note_text(b2);
+                        }
+                    }
+                }
+            }
             wrap_enc(&t, &o)
         }
         "fill" => {
@@ -566,11 +585,14 @@ pub fn run(fields: &[&str]) -> String {
         "fip" => {
             let t = ds(fields[1]);
             let w: usize = fields[2].parse().unwrap();
-            guarded(|| {
+            let a = guarded(|| {
                 let mut s = t.clone();
                 textwrap::fill_inplace(&mut s, w);
                 enc::s(&s)
-            })
+            });
+            // what fill_inplace documents itself to be equivalent to
+            let o = OptSpec { w, crlf: false, ii: String::new(), si: String::new(), bw: false, alg: None, unicode: false, spl: 0 };
+            format!("{}\t{}", a, wrap_enc(&t, &o))
         }
         "unfill" => {
             let t = ds(fields[1]);
@@ -608,7 +630,123 @@ pub fn run(fields: &[&str]) -> String {
             let t = ds(fields[2]);
             let cols: usize = fields[3].parse().unwrap();
             let (l, m, r) = (ds(fields[4]), ds(fields[5]), ds(fields[6]));
-            both(&o, |opts| enc::strs(&textwrap::wrap_columns(&t, cols, opts, &l, &m, &r)))
+            let rows = both(&o, |opts| enc::strs(&textwrap::wrap_columns(&t, cols, opts, &l, &m, &r)));
+            // the lines wrap() gives at the documented column width
+            let dwf = textwrap::core::display_width;
+            let inner = o.w.saturating_sub(dwf(&l)).saturating_sub(dwf(&r)).saturating_sub(dwf(&m).saturating_mul(cols.saturating_sub(1)));
+            let mut oc = o.clone();
+            oc.w = std::cmp::max(inner / cols.max(1), 1);
+            format!("{}\t{}", rows, wrap_enc(&t, &oc))
+        }
+        // C08: the same text with two indent pairs of equal widths and emptiness
+        "wrap8" => {
+            let o = OptSpec::dec(fields[1]);
+            let mut o2 = o.clone();
+            o2.ii = ds(fields[2]);
+            o2.si = ds(fields[3]);
+            let t = ds(fields[4]);
+            format!("{}\t{}", wrap_enc(&t, &o), wrap_enc(&t, &o2))
+        }
+        // C09: a, a+le+b, b, a2+le+b, fill(a+le+b), and the LF/CRLF pair
+        "wrap9" => {
+            let o = OptSpec::dec(fields[1]);
+            let (a, b, a2) = (ds(fields[2]), ds(fields[3]), ds(fields[4]));
+            let le = if o.crlf { "\r\n" } else { "\n" };
+            let ab = format!("{}{}{}", a, le, b);
+            let a2b = format!("{}{}{}", a2, le, b);
+            let mut olf = o.clone();
+            olf.crlf = false;
+            let mut ocr = o.clone();
+            ocr.crlf = true;
+            let t_lf = format!("{}\n{}", a, b);
+            let t_cr = t_lf.replace('\n', "\r\n");
+            note_text(&ab);
+            note_text(&b);
+            note_text(&a2b);
+            note_text(&t_lf);
+            note_text(&t_cr);
+            [
+                wrap_enc(&a, &o),
+                wrap_enc(&ab, &o),
+                wrap_enc(&b, &o),
+                wrap_enc(&a2b, &o),
+                fill_enc(&ab, &o),
+                fill_enc(&t_lf, &olf),
+                fill_enc(&t_cr, &ocr),
+            ]
+            .join("\t")
+        }
+        // C13: coloured text and the same text with the sequences removed
+        "wrap13" => {
+            let o = OptSpec::dec(fields[1]);
+            let t = ds(fields[2]);
+            let st = strip_ansi(&t);
+            note_text(&st);
+            format!("{}\t{}", wrap_enc(&t, &o), wrap_enc(&st, &o))
+        }
+        // C15: fill a paragraph of words, then unfill it
+        "unfill15" => {
+            let o = OptSpec::dec(fields[1]);
+            let words: Vec<String> = dlist(fields[2]).iter().map(|w| ds(w)).collect();
+            let tail = fields[3] == "1";
+            let para = words.join(" ");
+            let le = if o.crlf { "\r\n" } else { "\n" };
+            let filled = guarded(|| {
+                let mut f = textwrap::fill(&para, o.options());
+                if tail {
+                    f.push_str(le);
+                }
+                f
+            });
+            if filled == "PANIC" {
+                return "PANIC".to_string();
+            }
+            let u = guarded(|| {
+                let (text, uo) = textwrap::unfill(&filled);
+                format!(
+                    "{}/{}/{}/{}/{}",
+                    enc::s(&text),
+                    uo.width,
+                    enc::s(uo.initial_indent),
+                    enc::s(uo.subsequent_indent),
+                    if uo.line_ending == LineEnding::CRLF { "crlf" } else { "lf" }
+                )
+            });
+            format!("{}\t{}", enc::s(&filled), u)
+        }
+        // C16: refill(fill(t, o1), o2) against fill(t, o2 with o1's indents)
+        "refill16" => {
+            let o1 = OptSpec::dec(fields[1]);
+            let o2 = OptSpec::dec(fields[2]);
+            let words: Vec<String> = dlist(fields[3]).iter().map(|w| ds(w)).collect();
+            let tail = fields[4] == "1";
+            let para = words.join(" ");
+            let le1 = if o1.crlf { "\r\n" } else { "\n" };
+            let filled = guarded(|| {
+                let mut f = textwrap::fill(&para, o1.options());
+                if tail {
+                    f.push_str(le1);
+                }
+                f
+            });
+            if filled == "PANIC" {
+                return "PANIC".to_string();
+            }
+            let mut o3 = o2.clone();
+            o3.ii = o1.ii.clone();
+            o3.si = o1.si.clone();
+            let r = guarded(|| enc::s(&textwrap::refill(&filled, o2.options())));
+            format!("{}\t{}\t{}", enc::s(&filled), r, fill_enc(&para, &o3))
+        }
+        "dedent18" => {
+            let t = ds(fields[1]);
+            let p = ds(fields[2]);
+            guarded(|| {
+                let d = textwrap::dedent(&t);
+                let dd = textwrap::dedent(&d);
+                let di = textwrap::dedent(&textwrap::indent(&t, &p));
+                format!("{}\t{}\t{}", enc::s(&d), enc::s(&dd), enc::s(&di))
+            })
         }
         // fill twice (C14)
         "fill2" => {
@@ -636,8 +774,9 @@ fn oracle_inputs(fields: &[&str]) -> Vec<String> {
     };
     match fields[0] {
         "fwu" => vec![ds(fields[1])],
-        "wrap" | "fill" | "fill2" | "fills" | "refill" | "wc" => with_opts(1, 2),
+        "wrap" | "fill" | "fill2" | "fills" | "refill" | "wc" | "wrap9" | "wrap13" => with_opts(1, 2),
         "wsl" => with_opts(1, 3),
+        "wrap8" => with_opts(1, 4),
         _ => Vec::new(),
     }
 }
@@ -973,6 +1112,124 @@ pub fn generate<W: Write>(mode: &str, r: &mut Rng, out: &mut W) {
                 enc::s(r.ps(&gaps)),
                 enc::s(r.ps(&gaps)),
             ]
+        }
+        "wrap8" => {
+            let crlf = r.chance(1, 5);
+            let t = gen::any_text(r, crlf);
+            let mut o = gen_opts(r, &t);
+            o.crlf = crlf;
+            // indents from a set closed under a width- and emptiness-preserving substitution
+            let pool = ["", "> ", "- ", "  ", "é ", "Ｈ", "//", "* ", "    ", ">>> ", "\u{200b}", "\t"];
+            o.ii = r.ps(&pool).to_string();
+            o.si = if r.chance(1, 2) { o.ii.clone() } else { r.ps(&pool).to_string() };
+            let sub = |x: &str| -> String {
+                x.chars()
+                    .map(|c| match c {
+                        '>' => '#',
+                        '-' => '*',
+                        '*' => '-',
+                        ' ' => 'x',
+                        'é' => 'a',
+                        'Ｈ' => '字',
+                        '/' => '+',
+                        '\u{200b}' => '\u{2060}',
+                        '\t' => '\u{1}',
+                        c => c,
+                    })
+                    .collect()
+            };
+            vec!["wrap8".into(), o.enc(), enc::s(&sub(&o.ii)), enc::s(&sub(&o.si)), enc::s(&t)]
+        }
+        "wrap9" => {
+            let a = gen::any_text(r, false);
+            let b = gen::any_text(r, false);
+            let a2 = match r.below(3) {
+                0 => String::new(),
+                1 => "x".to_string(),
+                _ => gen::any_text(r, false),
+            };
+            let mut o = gen_opts(r, &b);
+            if r.chance(1, 2) {
+                o.ii = String::new();
+                o.si = String::new();
+            }
+            vec!["wrap9".into(), o.enc(), enc::s(&a), enc::s(&b), enc::s(&a2)]
+        }
+        "wrap13" => {
+            let t = if r.chance(5, 6) {
+                gen::structured_text(r, 2, 9, 1, false)
+            } else {
+                gen::structured_text(r, 2, 9, 2, false)
+            };
+            let mut o = gen_opts(r, &gen::display_width_probe(&t));
+            if r.chance(2, 3) {
+                o.ii = String::new();
+                o.si = String::new();
+            }
+            vec!["wrap13".into(), o.enc(), enc::s(&t)]
+        }
+        "unfill15" | "refill16" => {
+            let pool = ["a", "be", "foo", "bar", "baz", "text", "wrapping", "hello", "world!", "x1", "naïve", "日本", "e\u{301}", "end.", "(q)", "it's", "Z", "co-op", "a-b-c"];
+            let n = r.range(1, 12);
+            let words: Vec<String> = (0..n).map(|_| r.ps(&pool).to_string()).collect();
+            let para = words.join(" ");
+            let mk = |r: &mut Rng| {
+                let mut o = gen_opts(r, &para);
+                o.ii = r.ps(gen::PREFIX_INDENTS).to_string();
+                o.si = r.ps(gen::PREFIX_INDENTS).to_string();
+                o.spl = 0;
+                o.bw = false;
+                o.unicode = false;
+                if o.w > 1000 {
+                    o.w = 30;
+                }
+                o
+            };
+            let o1 = mk(r);
+            let tail = if r.chance(1, 3) { "1" } else { "0" };
+            if mode == "unfill15" {
+                vec!["unfill15".into(), o1.enc(), enc::strs(&words), tail.into()]
+            } else {
+                let o2 = mk(r);
+                vec!["refill16".into(), o1.enc(), o2.enc(), enc::strs(&words), tail.into()]
+            }
+        }
+        "dedent18" => {
+            let mut f = Vec::new();
+            // reuse the dedent generator for the text
+            let t = {
+                let margin = gen::text_over(r, &[" ", " ", "\t", "\u{a0}"], 4);
+                let n = r.range(1, 5);
+                let mut s = String::new();
+                for i in 0..n {
+                    if i > 0 {
+                        s.push_str(if r.chance(1, 8) { "\r\n" } else { "\n" });
+                    }
+                    match r.below(6) {
+                        0 => s.push_str(&gen::text_over(r, &[" ", "\t", "\u{a0}"], 5)),
+                        1 => {
+                            let k = r.below(margin.chars().count() + 1);
+                            s.extend(margin.chars().take(k));
+                            s.push_str(r.ps(gen::VOCAB));
+                        }
+                        2 => s.push_str(&gen::text_over(r, &[" ", "\t", "a", "\r", "b"], 5)),
+                        _ => {
+                            s.push_str(&margin);
+                            s.push_str(&gen::text_over(r, &[" ", "\t"], 2));
+                            s.push_str(r.ps(gen::VOCAB));
+                        }
+                    }
+                }
+                if r.chance(1, 2) {
+                    s.push('\n');
+                }
+                s
+            };
+            let p = gen::text_over(r, &[" ", "\t", "\u{a0}", "  ", "\u{3000}"], 3);
+            f.push("dedent18".to_string());
+            f.push(enc::s(&t));
+            f.push(enc::s(&p));
+            f
         }
         other => {
             eprintln!("unknown mode {}", other);
